@@ -11,12 +11,15 @@
 //     seed   seed of the slicing PRNG
 //   ops
 //     r:<data>             lzma_code(LZMA_RUN) until all of <data> has been consumed
+//     p<N>:<data>          ONE lzma_code(LZMA_RUN) call with <data> and N bytes of output space; what it does not consume
+//                          is taken back by the application
 //     s | s:<data>         LZMA_SYNC_FLUSH, optionally with new input handed in together with the action
 //     f | f:<data>         LZMA_FULL_FLUSH
 //     b | b:<data>         LZMA_FULL_BARRIER
 //     F | F:<data>         LZMA_FINISH
 //     u:<chain>            lzma_filters_update(strm, chain)
-//   data = hex | @<kind>.<seed>.<len> (generated: 0 random, 1 constant, 2 text, 3 periodic, 4 x86-like, 5 mixed)
+//   data = hex | @<kind>.<seed>.<len>[.<off>] (generated: 0 random, 1 constant, 2 text, 3 periodic, 4 x86-like, 5 mixed,
+//          6 pseudo text with about 4:1 LZMA ratio; <off> = skip that many bytes of the generated stream)
 //
 // Output line:
 //   rc=<r,..> in=<total_in,..> out=<total_out,..> st=<structure of all output> or=<ok|FAIL:...> dead=<0|1>
@@ -47,6 +50,7 @@ typedef struct {
 	chain_t chain;      // initial chain
 	chain_t cur;        // chain the next Block will use
 	chain_t blk;        // chain of the open Block (stream kinds) / the fixed chain (raw, block)
+	chain_t curfull;    // `cur` parsed in place (its option pointers are valid)
 	bool block_open;    // stream kinds: input arrived since the last Block end
 	lzma_ret cur_init;  // what initialising a Block with `cur` answers (probed on a scratch coder when an update was accepted):
 	                    // a mid-Block update validates only what it uses, so an unusable chain (e.g. misaligned BCJ
@@ -62,6 +66,8 @@ typedef struct {
 	bytes_t output;
 	uint64_t since;     // bytes since the last expected Block boundary
 	uint64_t *exp; size_t nexp, capexp;   // expected Block uncompressed sizes
+	char (*expf)[160];                    // expected Block Header filter lists ("" = not judged)
+	char blkf[160];                       // filter list of the chain in force when the open Block took its first byte
 	// block kind
 	lzma_block block;
 	uint8_t block_hdr[LZMA_BLOCK_HEADER_SIZE_MAX];
@@ -93,8 +99,10 @@ static void expect_block(ctx_t *c, uint64_t usize)
 	if (c->nexp == c->capexp) {
 		c->capexp = c->capexp ? c->capexp * 2 : 16;
 		c->exp = realloc(c->exp, c->capexp * sizeof(uint64_t));
-		if (c->exp == NULL) abort();
+		c->expf = realloc(c->expf, c->capexp * sizeof(c->expf[0]));
+		if (c->exp == NULL || c->expf == NULL) abort();
 	}
+	memcpy(c->expf[c->nexp], c->blkf, sizeof(c->blkf));
 	c->exp[c->nexp++] = usize;
 }
 
@@ -103,8 +111,13 @@ static uint8_t *gen_data(const char *spec, size_t *len)
 {
 	if (spec[0] != '@')
 		return hp_hex(spec, len);
-	unsigned kind = 0; unsigned long long seed = 0; unsigned long long n = 0;
-	if (sscanf(spec + 1, "%u.%llu.%llu", &kind, &seed, &n) != 3) { fprintf(stderr, "bad data spec\n"); exit(3); }
+	unsigned kind = 0; unsigned long long seed = 0; unsigned long long n = 0, off = 0;
+	const int nfld = sscanf(spec + 1, "%u.%llu.%llu.%llu", &kind, &seed, &n, &off);
+	if (nfld < 3) { fprintf(stderr, "bad data spec\n"); exit(3); }
+	// @kind.seed.len.off = bytes [off, off+len) of the stream the generator makes (kinds 0, 2, 4, 6 make the same
+	// stream whatever the length asked for)
+	const unsigned long long want = n;
+	n += off;
 	uint8_t *p = malloc(n ? n : 1);
 	if (p == NULL) abort();
 	uint64_t x = seed * 0x9E3779B97F4A7C15ull + 0x1234567ull;
@@ -138,12 +151,30 @@ static uint8_t *gen_data(const char *spec, size_t *len)
 			}
 		}
 		break;
+	case 6: {
+		// pseudo text: 300 random words of 2..9 letters, skewed word frequencies (LZMA gets about 4:1 out of it, so
+		// that an LZMA2 chunk is closed by the 64 KiB compressed-size limit after 200-odd KiB)
+		char w[300][10];
+		for (unsigned k = 0; k < 300; ++k) {
+			const unsigned l = 2 + (unsigned)(NEXT >> 16) % 8;
+			for (unsigned j = 0; j < l; ++j) w[k][j] = (char)('a' + (NEXT >> 16) % 26);
+			w[k][l] = 0;
+		}
+		while (i < n) {
+			unsigned k = (unsigned)(NEXT >> 16) % 300;
+			if ((NEXT >> 16) % 3 != 0) k %= 40;
+			for (const char *q = w[k]; *q && i < n; ++q) p[i++] = (uint8_t)*q;
+			if (i < n) { const unsigned r = (unsigned)(NEXT >> 16) % 16; p[i++] = r == 0 ? '\n' : r == 1 ? ',' : ' '; }
+		}
+		break;
+	}
 	default:
 		for (; i < n; ++i) p[i] = (i / 512) % 2 ? (uint8_t)(NEXT >> 24) : (uint8_t)(i / 7);
 		break;
 	}
 #undef NEXT
-	*len = (size_t)n;
+	if (off) memmove(p, p + off, (size_t)want);
+	*len = (size_t)want;
 	return p;
 }
 
@@ -228,6 +259,13 @@ static void check_blocks_against_history(ctx_t *c, const xz_walk_t *x, int op, b
 	for (unsigned i = 0; i < x->nblocks; ++i) {
 		if (x->blocks[i].usize == 0) { fail(c, "empty-block", op); return; }
 		if (x->blocks[i].usize != c->exp[i]) { fail(c, "block-boundary", op); return; }
+		// the Block carries the chain that was in force when its first byte was consumed ("an update takes effect from
+		// that point"). A threaded encoder may store an incompressible Block as LZMA2 uncompressed chunks (33:00).
+		if (c->expf[i][0] != 0 && strcmp(x->blocks[i].filters, c->expf[i]) != 0
+				&& !(c->kind == K_MT && !strcmp(x->blocks[i].filters, "33:00"))) {
+			fail(c, "block-made-with-another-chain-than-the-one-in-force", op);
+			return;
+		}
 	}
 }
 
@@ -445,6 +483,7 @@ static void run_case(char **tok, int ntok)
 	// only the has_lzma1/has_bcj/last_is_lzma2 flags of `cur` and `blk` are ever read (the option pointers of the
 	// copies are stale and never dereferenced)
 	c.cur = c.chain; c.blk = c.chain;
+	chain_parse(&c.curfull, tok[2]);
 	c.check = (unsigned)strtoul(tok[3], NULL, 10);
 	if (!parse_slice(tok[4], &c.out_mode, &c.out_n) || !parse_slice(tok[5], &c.in_mode, &c.in_n)) { printf("bad-op\n"); return; }
 	c.rng = strtoull(tok[6], NULL, 10) * 0x9E3779B97F4A7C15ull + 88172645463325252ull;
@@ -468,6 +507,13 @@ static void run_case(char **tok, int ntok)
 		const char *t = tok[i];
 		const char kindc = t[0];
 		const char *arg = (t[1] == ':') ? t + 2 : NULL;
+		size_t single_out = 0;
+		if (kindc == 'p') {
+			single_out = (size_t)strtoull(t + 1, NULL, 10);
+			arg = strchr(t, ':');
+			if (arg == NULL) { printf("bad-op\n"); goto done; }
+			++arg;
+		}
 		if (dead || finished) {
 			st_printf(&rcs, "%s-", op ? "," : "");
 			st_printf(&ins, "%s%zu", op ? "," : "", c.input.n);
@@ -481,6 +527,7 @@ static void run_case(char **tok, int ntok)
 			r = lzma_filters_update(&strm, nc.f);
 			if (r == LZMA_OK && is_stream_kind(&c)) {
 				c.cur = nc;
+				chain_parse(&c.curfull, arg);
 				// independent probe: would a Block encoder accept this chain?
 				lzma_stream probe = LZMA_STREAM_INIT;
 				lzma_block pb;
@@ -498,6 +545,7 @@ static void run_case(char **tok, int ntok)
 			lzma_action a;
 			switch (kindc) {
 			case 'r': a = LZMA_RUN; break;
+			case 'p': a = LZMA_RUN; break;   // p<N>:<data> = ONE lzma_code(LZMA_RUN) call with avail_out = N
 			case 's': a = LZMA_SYNC_FLUSH; break;
 			case 'f': a = LZMA_FULL_FLUSH; break;
 			case 'b': a = LZMA_FULL_BARRIER; break;
@@ -508,7 +556,16 @@ static void run_case(char **tok, int ntok)
 			uint8_t *data = arg ? gen_data(arg, &dn) : NULL;
 			const uint64_t in_before = strm.total_in;
 			const bool block_open_before = c.block_open;
-			if (a == LZMA_RUN) {
+			if (kindc == 'p') {
+				// what remains unconsumed is taken back by the application (it may hand it in again later)
+				strm.next_in = data;
+				strm.avail_in = dn;
+				by_reserve(&c.output, single_out + 1);
+				strm.next_out = c.output.p + c.output.n;
+				strm.avail_out = single_out;
+				r = lzma_code(&strm, LZMA_RUN);
+				c.output.n = (size_t)(strm.next_out - c.output.p);
+			} else if (a == LZMA_RUN) {
 				size_t off = 0;
 				while (off < dn && r == LZMA_OK) {
 					size_t piece = slice(&c, c.in_mode, c.in_n);
@@ -545,7 +602,10 @@ static void run_case(char **tok, int ntok)
 			// ---- direct oracle ----
 			// history of expected Block boundaries
 			if (is_stream_kind(&c) && used > 0) {
-				if (!c.block_open) { c.block_open = true; c.blk = c.cur; }
+				if (!c.block_open) {
+					c.block_open = true; c.blk = c.cur;
+					if (!chain_header_string(&c.curfull, c.blkf, sizeof(c.blkf))) c.blkf[0] = 0;
+				}
 				c.since += used;
 				if (c.kind == K_MT)
 					while (c.since >= c.block_size) { expect_block(&c, c.block_size); c.since -= c.block_size; }
@@ -613,6 +673,7 @@ done:
 	st_free(&rcs); st_free(&ins); st_free(&outs); st_free(&st);
 	by_free(&c.input); by_free(&c.output);
 	free(c.exp);
+	free(c.expf);
 }
 
 int main(void)
